@@ -581,27 +581,44 @@ Section Inv.
     rewrite IH. apply process_commit_length.
   Qed.
 
-  (** The annotation of the model: one origin per starting line, each of them good. *)
-  Theorem annotate_good nlines : nlines = length (text start) ->
-    length (annotate matching old start nlines nodes) = nlines /\
-    forall s o, nth_error (annotate matching old start nlines nodes) s = Some o -> good_origin s o.
+  Lemma init_inv nlines : nlines = length (text start) -> Inv (init_state start nlines).
   Proof.
-    intros Hn. unfold annotate, init_state. cbn [st_olm st_srcs].
-    split.
-    - rewrite process_nodes_length. cbn [st_olm]. now rewrite map_length, seq_length.
-    - apply process_nodes_inv; [auto|].
-      assert (Hline : forall i, i < nlines -> same_line start i i).
-      { intros i Hi. rewrite Hn in Hi. destruct (nth_error (text start) i) as [l|] eqn:E.
-        - exists l. auto.
-        - apply nth_error_None in E. lia. }
-      split; cbn [st_srcs st_olm].
-      + intros c m Hl. cbn in Hl. destruct (Nat.eqb_spec c start); [|discriminate].
-        inversion Hl; subst. split; [exact anc_refl|]. split.
-        * apply sorted_fst_diag.
-        * intros x s Hin. apply in_map_iff in Hin.
-          destruct Hin as [i [Heq Hi]]. inversion Heq; subst. apply in_seq in Hi. apply Hline. lia.
-      + intros s o Ho. apply nth_error_map_inv in Ho.
-        destruct Ho as [i [Hi ->]]. apply nth_error_seq_inv in Hi. destruct Hi as [-> Hs].
-        cbn [Nat.add]. split; [|split]; cbn [o_commit o_line o_ok]; auto.
+    intros Hn. unfold init_state.
+    assert (Hline : forall i, i < nlines -> same_line start i i).
+    { intros i Hi. rewrite Hn in Hi. destruct (nth_error (text start) i) as [l|] eqn:E.
+      - exists l. auto.
+      - apply nth_error_None in E. lia. }
+    split; cbn [st_srcs st_olm].
+    + intros c m Hl. cbn in Hl. destruct (Nat.eqb_spec c start); [|discriminate].
+      inversion Hl; subst. split; [exact anc_refl|]. split.
+      * apply sorted_fst_diag.
+      * intros x s Hin. apply in_map_iff in Hin.
+        destruct Hin as [i [Heq Hi]]. inversion Heq; subst. apply in_seq in Hi. apply Hline. lia.
+    + intros s o Ho. apply nth_error_map_inv in Ho.
+      destruct Ho as [i [Hi ->]]. apply nth_error_seq_inv in Hi. destruct Hi as [-> Hs].
+      cbn [Nat.add]. split; [|split]; cbn [o_commit o_line o_ok]; auto.
+  Qed.
+
+  Lemma run_phase_inv st ns : (forall nd, In nd ns -> In nd nodes) -> Inv st ->
+    Inv (run_phase matching old st ns) /\
+    length (st_olm (run_phase matching old st ns)) = length (st_olm st).
+  Proof.
+    intros Hsub [H1 H2]. unfold run_phase. split.
+    - apply process_nodes_inv; auto. split; cbn [st_srcs st_olm]; auto.
+    - now rewrite process_nodes_length.
+  Qed.
+
+  (** Every state reached by successive [compute] calls satisfies the invariant: one origin
+      per starting line, each of them good. *)
+  Theorem run_phases_good : forall phases st,
+    (forall ns nd, In ns phases -> In nd ns -> In nd nodes) -> Inv st ->
+    forall st', In st' (run_phases matching old st phases) ->
+      Inv st' /\ length (st_olm st') = length (st_olm st).
+  Proof.
+    induction phases as [|ns t IH]; intros st Hsub Hi st' Hin; cbn [run_phases] in Hin; [destruct Hin|].
+    destruct (run_phase_inv st ns (fun nd H => Hsub ns nd (or_introl eq_refl) H) Hi) as [Hi1 Hl1].
+    destruct Hin as [<-|Hin]; [auto|].
+    destruct (IH _ (fun ns' nd H1 H2 => Hsub ns' nd (or_intror H1) H2) Hi1 st' Hin) as [Ha Hb].
+    split; auto. congruence.
   Qed.
 End Inv.
